@@ -10,6 +10,9 @@ edits to one model never change the description or values of another.
 import os
 import shutil
 import tempfile
+import types
+
+import pandas as pd
 
 from .. import core
 from ..impl import mx, close_all, quiet, err_kind
@@ -43,9 +46,20 @@ def gen_history(rng, length):
             created += 1
         elif r < 0.82:
             ops.append(["close", str(rng.randrange(created))])
-        else:
+        elif r < 0.91:
             ops.append(["edit", str(rng.randrange(created)), str(rng.randrange(6))])
+        else:
+            ops.append(["io", str(rng.randrange(created)), str(rng.randrange(N_IO))])
     return ops
+
+
+# the `io` op: the model acquires / releases / shares a value with an IOSpec.  File kinds x path kinds:
+#   0 csv relative   1 csv ABSOLUTE   2 workbook sheet ABSOLUTE   3 module relative   4 module ABSOLUTE
+#   5 Excel range relative   6 Excel range ABSOLUTE   7 delete the newest io reference   8 bind an io value to a
+#   second name (model level)   9 workbook sheet relative
+# Absolute paths are private to a model (one folder per model index below the session's tmp): files under an
+# absolute path that two models SHARE are the recorded design finding C18-absolute-io-shared, not this property.
+N_IO = 10
 
 
 # ----------------------------------------------------------------------------- implementation
@@ -55,6 +69,7 @@ class Impl:
         self.tmp = tmp
         self.models = []      # creation index -> Model interface (or None for a failed read)
         self.saved = {}
+        self.nio = {}         # creation index -> number of io names handed out
 
     def saved_path(self, name, broken):
         key = (name, broken)
@@ -71,6 +86,9 @@ class Impl:
             s = m.new_space("S")
             s.new_cells("f", formula="lambda x: x + 1")
             s.y = 3
+            # IOSpecs with relative paths (files inside the saved folder): every model read from it gets its own
+            s.new_pandas("df", "data/df.csv", _frame(7), file_type="csv")
+            m.new_module("mod", "mod/mod.py", self.module_source())
             path = os.path.join(self.tmp, "saved_%s_%d" % (name, broken))
             m.write(path)
             m.close()
@@ -128,6 +146,15 @@ class Impl:
                     m = mx.read_model(path)
                     self.models[-1] = m
                     return "ok %d" % (len(self.models) - 1)
+                if kind == "io":
+                    m = self.models[int(op[1])] if int(op[1]) < len(self.models) else None
+                    if m is None:
+                        return "skip"
+                    try:
+                        self._io(m, int(op[1]), int(op[2]))
+                    except Exception:
+                        pass                # refused (e.g. through the handle of a closed model): changes nothing
+                    return "skip"
                 if kind == "edit":
                     m = self.models[int(op[1])] if int(op[1]) < len(self.models) else None
                     if m is None:
@@ -153,6 +180,68 @@ class Impl:
         s.y = 1
         m.g = 10
         s.f(1)
+        # every model holds data in files: one inside the model folder, one EXTERNAL (absolute path)
+        i = len(self.models) - 1
+        self._io(m, i, 0)
+        self._io(m, i, 1)
+
+    # -- IOSpecs
+    def module_source(self):
+        p = os.path.join(self.tmp, "modsrc.py")
+        if not os.path.exists(p):
+            with open(p, "w") as f:
+                f.write("def twice(x):\n    return 2 * x\n")
+        return p
+
+    def workbook(self):
+        p = os.path.join(self.tmp, "rangesrc.xlsx")
+        if not os.path.exists(p):
+            import openpyxl
+            wb = openpyxl.Workbook()
+            ws = wb.active
+            ws.title = "s"
+            for r in range(1, 4):
+                ws.cell(r, 1, r)
+                ws.cell(r, 2, 10 * r)
+            wb.save(p)
+        return p
+
+    def ext_path(self, i, fname):
+        return os.path.join(self.tmp, "ext_m%d" % i, fname)
+
+    def _io(self, m, i, k):
+        s = m.S if "S" in m.spaces else m.new_space("S")
+        n = self.nio.get(i, 0)
+        self.nio[i] = n + 1
+        nm = "io%d" % n
+        if k == 0:
+            s.new_pandas(nm, "data/%s.csv" % nm, _frame(n), file_type="csv")
+        elif k == 1:
+            s.new_pandas(nm, self.ext_path(i, nm + ".csv"), _frame(n), file_type="csv")
+        elif k == 2:
+            s.new_pandas(nm, self.ext_path(i, "book.xlsx"), _frame(n), file_type="excel", sheet=nm)
+        elif k == 9:
+            s.new_pandas(nm, "data/book.xlsx", _frame(n), file_type="excel", sheet=nm)
+        elif k == 3:
+            m.new_module(nm, "mod/%s.py" % nm, self.module_source())
+        elif k == 4:
+            s.new_module(nm, self.ext_path(i, nm + ".py"), self.module_source())
+        elif k == 5:
+            s.new_excel_range(nm, "data/%s.xlsx" % nm, "A1:B3", sheet="s", keyids=["r0"], loadpath=self.workbook())
+        elif k == 6:
+            m.new_excel_range(nm, self.ext_path(i, nm + ".xlsx"), "A1:B3", sheet="s", keyids=["r0"],
+                              loadpath=self.workbook())
+        elif k == 7:
+            for par in (s, m):
+                names = [x for x in par.refs if x.startswith("io") and (par is m or x in par._impl.own_refs)]
+                if names:
+                    delattr(par, sorted(names, key=lambda x: int(x[2:].split("_")[0]))[-1])
+                    break
+        elif k == 8:
+            for x, v in s.refs.items():
+                if x.startswith("io") and x in s._impl.own_refs:
+                    setattr(m, x + "_alias", v)
+                    break
 
     def _edit(self, m, k):
         s = m.S if "S" in m.spaces else m.new_space("S")
@@ -181,33 +270,107 @@ class Impl:
         return "reg " + " ".join(parts)
 
     def describe(self, m):
-        """public description of one model (for the isolation oracle)"""
-        d = {"name": None, "refs": {k: repr(v) for k, v in m.refs.items() if k != "__builtins__"}, "spaces": {}}
+        """public description of one model (for the isolation oracle): definitions, values, and what the model
+        keeps in files - `iospecs` (kind, file, file type, sheet / range, the names bound to the value) and
+        `get_spec` of every file-backed value under every name"""
+        d = {"name": None, "refs": {k: _show(v) for k, v in m.refs.items() if k != "__builtins__"}, "spaces": {}}
         for sn, s in m.spaces.items():
             d["spaces"][sn] = {
                 "cells": {cn: (c.formula.source if c.formula else None, sorted(
                     (repr(k), repr(v)) for k, v in dict(c).items())) for cn, c in s.cells.items()},
-                "refs": {k: repr(v) for k, v in s.refs.items() if not k.startswith("_")},
+                "refs": {k: _show(v) for k, v in s.refs.items() if not k.startswith("_")},
             }
+        named = [("", k, v) for k, v in m.refs.items() if k != "__builtins__"]
+        for sn, s in m.spaces.items():
+            named.extend((sn, k, v) for k, v in s.refs.items() if not k.startswith("_"))
+        try:
+            specs = list(m.iospecs)
+        except Exception as e:
+            specs = []
+            d["iospecs_error"] = type(e).__name__
+        d["iospecs"] = sorted(
+            (type(sp).__name__, self.show_path(sp.path), str(getattr(sp.io, "file_type", "-")),
+             str(getattr(sp, "sheet", None)), str(getattr(sp, "range", None)),
+             ",".join(sorted("%s.%s" % (sn, k) for sn, k, v in named if v is sp.value)))
+            for sp in specs)
+        d["spec_of"] = {}
+        for sn, k, v in named:
+            if _file_backed_kind(v):
+                try:
+                    sp = m.get_spec(v)
+                    d["spec_of"]["%s.%s" % (sn, k)] = "%s:%s" % (type(sp).__name__, self.show_path(sp.path))
+                except Exception as e:
+                    d["spec_of"]["%s.%s" % (sn, k)] = "ERROR: %s" % e
         return d
+
+    def show_path(self, p):
+        p = str(p)
+        if os.path.isabs(p):
+            return "<abs>/" + os.path.relpath(p, self.tmp).replace(os.sep, "/")
+        return p.replace(os.sep, "/")
+
+    def files_written(self, m, k):
+        """write the model: every file its IOSpecs name must be (re)written - relative ones below the target,
+        external ones at their absolute path; returns the list of missing files"""
+        target = os.path.join(self.tmp, "final_%d" % k)
+        want = []
+        for sp in m.iospecs:
+            p = str(sp.path)
+            want.append(p if os.path.isabs(p) else os.path.join(target, p))
+        for p in want:
+            if os.path.isabs(p) and os.path.exists(p) and not p.startswith(target):
+                os.unlink(p)
+        with quiet():
+            m.write(target)
+        missing = sorted(self.show_path(p) for p in want if not os.path.exists(p))
+        shutil.rmtree(target, ignore_errors=True)
+        return missing
+
+
+def _frame(i):
+    df = pd.DataFrame({"a": [i, i + 1, i + 2], "b": [10 * i, 5, 7]})
+    df.index.name = "k"
+    return df
+
+
+def _file_backed_kind(v):
+    if isinstance(v, (pd.DataFrame, pd.Series, types.ModuleType)):
+        return True
+    return type(v).__name__ == "ExcelRange"
+
+
+def _show(v):
+    """a value of a reference without addresses"""
+    if isinstance(v, (pd.DataFrame, pd.Series)):
+        return "pandas:" + repr(v.to_dict())
+    if isinstance(v, types.ModuleType):
+        return "module:" + ",".join(sorted(x for x in vars(v) if not x.startswith("_")))
+    if type(v).__name__ == "ExcelRange":
+        return "range:" + repr(sorted((repr(a), repr(b)) for a, b in dict(v).items()))
+    return repr(v)
 
 
 # ----------------------------------------------------------------------------- one history
 
-def run_history(ops, out, hist_id, stats):
+def run_history(ops, out, hist_id, stats, final_write=True):
     close_all()
-    tmp = tempfile.mkdtemp(prefix="mxh_c19_")
+    iom = mx.core.mxsys.iomanager
+    iom.ios.clear()
+    iom.ios.inverse.clear()
+    tmp = os.path.realpath(tempfile.mkdtemp(prefix="mxh_c19_"))
     try:
         impl = Impl(tmp)
         impl_lines, model_ops = [], ["reset"]
         index_map = []
+        cache = {}          # descriptions taken after the previous op (nothing happens between two ops)
         for k, op in enumerate(ops):
             before = {i: m for i, m in enumerate(impl.models)
                       if m is not None and m._impl in mx.core.mxsys.models.values()}
-            desc_before = {i: impl.describe(m) for i, m in before.items()}
+            desc_before = {i: cache[i] if i in cache else impl.describe(m) for i, m in before.items()}
+            cache = {}
             reg_before = [(key, id(im)) for key, im in mx.core.mxsys.models.items()]
             res = impl.apply(op)
-            if op[0] == "edit":
+            if op[0] in ("edit", "io"):
                 if reg_before != [(key, id(im)) for key, im in mx.core.mxsys.models.items()]:
                     out.fail("an edit of a model changed the registry", ops[:k + 1])
                 if int(op[1]) < len(impl.models) and impl.models[int(op[1])] is not None \
@@ -219,7 +382,7 @@ def run_history(ops, out, hist_id, stats):
             obs = impl.observe()
             if "_BAK" in obs:
                 stats["hist_with_backup_name"].add(hist_id)
-            if op[0] != "edit":
+            if op[0] not in ("edit", "io"):
                 model_ops.append(" ".join(op))
                 impl_lines.append(res)
                 index_map.append(k)
@@ -241,13 +404,35 @@ def run_history(ops, out, hist_id, stats):
                 if not closing_it and not present:
                     out.fail("model #%d dropped from the registry by %s" % (i, op[0]), ops[:k + 1])
                 if present and not closing_it:
-                    touched = op[0] in ("edit", "rename") and int(op[1]) == i
-                    d = impl.describe(m)
+                    touched = op[0] in ("edit", "io", "rename") and int(op[1]) == i
+                    d = cache[i] = impl.describe(m)
                     if not touched and d != desc_before[i]:
                         out.fail("model #%d changed by an operation on another model (%s)" % (i, op[0]),
                                  ops[:k + 1], detail={"before": desc_before[i], "after": d})
                     if op[0] == "rename" and touched and d != desc_before[i]:
                         out.fail("rename changed definitions or values of the model", ops[:k + 1])
+                    if d["iospecs"]:
+                        stats["obs_of_models_with_iospecs"] = stats.get("obs_of_models_with_iospecs", 0) + 1
+                        if op[0] == "close" and any(x[1].startswith("<abs>") for x in d["iospecs"]):
+                            stats["close_next_to_external_iospec"] = stats.get("close_next_to_external_iospec", 0) + 1
+        # ---- at the end: every model that is still open writes every file its IOSpecs name (the other
+        # models' operations - closes above all - must not have cut a model off from its files)
+        if final_write:
+            still = [i for i, m in enumerate(impl.models)
+                     if m is not None and m._impl in mx.core.mxsys.models.values()]
+            # (a write also rewrites every external file of the session, so the cost grows with the square of the
+            # number of open models: the oldest, the newest and one in between are written)
+            for i in sorted(set(still[:1] + still[-1:] + still[len(still) // 2:len(still) // 2 + 1])):
+                m = impl.models[i]
+                if True:
+                    try:
+                        missing = impl.files_written(m, i)
+                    except Exception as e:
+                        out.fail("model #%d cannot be written at the end of the session: %s" % (i, err_kind(e)), ops)
+                        continue
+                    stats["final_writes"] = stats.get("final_writes", 0) + 1
+                    if missing:
+                        out.fail("writing model #%d did not write the files of its IOSpecs: %s" % (i, missing), ops)
         model_lines = core.run_driver("registry", model_ops)[1:]
         for j, (a, b) in enumerate(zip(impl_lines, model_lines)):
             b = b.split(" | ")[0].rstrip()
@@ -256,6 +441,8 @@ def run_history(ops, out, hist_id, stats):
                 break
     finally:
         close_all()
+        iom.ios.clear()
+        iom.ios.inverse.clear()
         shutil.rmtree(tmp, ignore_errors=True)
 
 
